@@ -286,7 +286,7 @@ RULES = [
 
 
 from . import shared
-RULES = RULES + shared.bundle('C13', ['norm', 'values', 'carry', 'gate', 'restart', 'loops', 'driver', 'density', 'support', 'relative', 'limits'], ['modelinfo', 'weights'])
+RULES = RULES + shared.bundle('C13', ['gpu', 'norm', 'values', 'carry', 'gate', 'restart', 'loops', 'driver', 'density', 'support', 'relative', 'limits'], ['modelinfo', 'weights'])
 
 
 def run(tier="quick", replay=None):
